@@ -47,6 +47,10 @@ type Fixture struct {
 	Pollute func(junk []byte, n int)
 }
 
+// ShareOpts makes the fixtures' NewWriter pass one shared options slice (with spare capacity) per configuration to every
+// writer instead of a fresh slice per writer. Only set by single-goroutine engines (C13 api / reentrant).
+var ShareOpts bool
+
 var reg = map[string]*Fixture{}
 
 func Register(f *Fixture) {
